@@ -10,6 +10,7 @@ at the top-level directory.
 */
 
 #include "slu_mt_zdefs.h"
+#include "slu_mt_verif.h"
 
 void
 pzgstrf_thread_finalize(pzgstrf_threadarg_t *pzgstrf_threadarg, 
@@ -111,6 +112,7 @@ pzgstrf_thread_finalize(pzgstrf_threadarg_t *pzgstrf_threadarg,
 	}
     }
     *pxgstrf_shared->info = iinfo;
+    SLU_VERIF_EV("Wrap", -1, nnzL, nnzU, Glu->supno[n], iinfo);
 
 #if ( DEBUGlevel>=2 )
     printf("Last nsuper %d\n", Glu->nsuper);
